@@ -117,7 +117,7 @@ pub fn line(l: &str) -> String {
             Err(p) => { panics.push(format!("eval `{pre}`: {p}")); "E".to_string() }
         };
         let pv_s = match pv {
-            Ok(r) => show_cps(r.get_main_result()),
+            Ok(r) => format!("{}{}", if r.is_unit_type() { "U" } else { "" }, show_cps(r.get_main_result())),
             Err(p) => { panics.push(format!("preview `{pre}`: {p}")); String::new() }
         };
         pairs.push(format!("{}|{}|{}", show_cps(pre), raw_s, pv_s));
